@@ -808,3 +808,119 @@ func octetClasses(fn *ssa.Function, octet ssa.Value) (out [256]octetClass) {
 	}
 	return
 }
+
+// ---- looking for an anchor in the function or in a helper it calls ----
+
+// calleeWith: fn itself when has(fn) holds, otherwise a function of the same package it calls (two levels down) for
+// which it holds; nil when none does. A block of a function that has been moved into a helper of its own is still
+// found this way.
+func calleeWith(fn *ssa.Function, has func(*ssa.Function) bool) *ssa.Function {
+	if fn == nil {
+		return nil
+	}
+	if has(fn) {
+		return fn
+	}
+	seen := map[*ssa.Function]bool{fn: true}
+	level := []*ssa.Function{fn}
+	for depth := 0; depth < 2; depth++ {
+		var next []*ssa.Function
+		for _, f := range level {
+			for _, sub := range withAnon(f) {
+				var found *ssa.Function
+				allInstrs(sub, func(in ssa.Instruction) {
+					ci, ok := in.(ssa.CallInstruction)
+					if !ok || found != nil {
+						return
+					}
+					g := ci.Common().StaticCallee()
+					if g == nil || g.Pkg != fn.Pkg || seen[g] || len(g.Blocks) == 0 {
+						return
+					}
+					seen[g] = true
+					if has(g) {
+						found = g
+						return
+					}
+					next = append(next, g)
+				})
+				if found != nil {
+					return found
+				}
+			}
+		}
+		level = next
+	}
+	return nil
+}
+
+// argsAtCalls: the values handed for parameter p of g at the calls of g found in fn and in what fn calls.
+func argsAtCalls(fn, g *ssa.Function, p *ssa.Parameter) []ssa.Value {
+	idx := -1
+	for i, q := range g.Params {
+		if q == p {
+			idx = i
+		}
+	}
+	var out []ssa.Value
+	if idx < 0 {
+		return out
+	}
+	seen := map[*ssa.Function]bool{}
+	var visit func(f *ssa.Function, depth int)
+	visit = func(f *ssa.Function, depth int) {
+		if f == nil || seen[f] || depth > 2 {
+			return
+		}
+		seen[f] = true
+		for _, sub := range withAnon(f) {
+			allInstrs(sub, func(in ssa.Instruction) {
+				ci, ok := in.(ssa.CallInstruction)
+				if !ok {
+					return
+				}
+				callee := ci.Common().StaticCallee()
+				if callee == g && idx < len(ci.Common().Args) {
+					out = append(out, ci.Common().Args[idx])
+				} else if callee != nil && callee.Pkg == fn.Pkg {
+					visit(callee, depth+1)
+				}
+			})
+		}
+	}
+	visit(fn, 0)
+	return out
+}
+
+// boundTo: pred, read through the parameters of helper: a parameter counts when every call of the helper from fn
+// hands it a value that (shallowly) satisfies pred.
+func boundTo(fn, helper *ssa.Function, pred vpred) vpred {
+	return func(v ssa.Value) bool {
+		if pred(v) {
+			return true
+		}
+		for o := range shallowOrigins(v) {
+			if pred(o) {
+				return true
+			}
+			p, ok := o.(*ssa.Parameter)
+			if !ok || helper == fn || p.Parent() != helper {
+				continue
+			}
+			args := argsAtCalls(fn, helper, p)
+			if len(args) == 0 {
+				continue
+			}
+			all := true
+			for _, a := range args {
+				if !anyIn(shallowOrigins(a), pred) && !pred(a) {
+					all = false
+				}
+			}
+			if all {
+				return true
+			}
+		}
+		return false
+	}
+}
